@@ -87,7 +87,8 @@ Proof.
     destruct (_ || _); [inversion H; subst; split; [exact N|constructor]|].
     destruct (value_by_tag d tag_MsgSeqNum) as [sb| | |]; try (inversion H; subst; split; [exact N|constructor]).
     destruct (atoi sb); [|inversion H; subst; split; [exact N|constructor]].
-    destruct (value_by_tag d tag_MsgType); inversion H; subst; split; try exact N; try apply G; constructor.
+    destruct (value_by_tag d tag_MsgType) as [mt| | |]; try (inversion H; subst; split; [exact N|constructor]).
+    destruct (c_seqreset cfg && beq mt msgtype_SequenceReset); inversion H; subst; split; try exact N; try apply G; constructor.
   - (* HResend *)
     left. destruct (parse_as _ _ d) as [rm| | |].
     + rewrite NL in H. cbn [negb] in H.
@@ -366,7 +367,8 @@ Proof.
   - destruct (_ || _); [inversion H; subst; constructor|].
     destruct (value_by_tag d tag_MsgSeqNum) as [sb| | |]; try (inversion H; subst; constructor).
     destruct (atoi sb); [|inversion H; subst; constructor].
-    destruct (value_by_tag d tag_MsgType); inversion H; subst; constructor.
+    destruct (value_by_tag d tag_MsgType) as [mt| | |]; try (inversion H; subst; constructor).
+    destruct (c_seqreset cfg && beq mt msgtype_SequenceReset); inversion H; subst; constructor.
   - destruct (parse_as _ _ d) as [rm| | |];
       [|pair_split H; inversion H; subst; grows_chain|pair_split H; inversion H; subst; grows_chain|pair_split H; inversion H; subst; grows_chain].
     destruct (negb (is_logged s)); [pair_split H; inversion H; subst; grows_chain|].
